@@ -199,7 +199,7 @@ def circuits(env):
     yield "U3+h(1,0,2)", h
 
 
-def check_mixture(env, label, settings):
+def check_mixture(env, label, settings, tier="quick"):
     from lightworks import emulator
     import lightworks as lw
     name = "lightworks/emulator/simulation/sampler.py:Sampler.probability_distribution#xsym.source"
@@ -210,6 +210,8 @@ def check_mixture(env, label, settings):
         U = circ.U_full
         m = circ.input_modes
         inputs = [s for s in fock.fock(m, 1) + fock.fock(m, 2)]
+        if tier == "thorough" and m == 3:
+            inputs += [[1, 1, 1], [2, 1, 0], [0, 3, 0]]       # three photons: up to 3 emission outcomes per photon, bunched and collision-free
         for s in inputs:
             src = emulator.Source(brightness=nu, purity=pur, indistinguishability=ind)
             stats = src._build_statistics(lw.State(fock.ins(s, circ.heralds["input"], circ.n_modes)))
@@ -254,7 +256,7 @@ def check_mixture(env, label, settings):
 SETTINGS = [(F(3, 4), F(1), F(1)), (F(1), F(1), F(4, 9)), (F(1), F(1), F(0)), (F(1), F(9, 10), F(1)), (F(4, 5), F(9, 10), F(1, 4)), (F(1, 2), F(3, 4), F(0))]
 
 
-def _run(mode, which, label, k):
+def _run(mode, which, label, k, tier="quick"):
     env = Env(mode)
     if which == "single":
         check_single_photon(env)
@@ -262,7 +264,7 @@ def _run(mode, which, label, k):
     elif which == "hom":
         check_hom(env)
     else:
-        check_mixture(env, label, SETTINGS[k])
+        check_mixture(env, label, SETTINGS[k], tier)
     return env.obligations
 
 
@@ -272,13 +274,13 @@ def unit(mode="exact", tier="quick", seed=0, which="single", label=None, k=0):
     npaths = 0
     if mode == "exact":
         from vf.xlift import hook
-        for path, log, res in hook.run_paths(lambda: _run(mode, which, label, k)):
+        for path, log, res in hook.run_paths(lambda: _run(mode, which, label, k, tier)):
             npaths += 1
             obs = res[1] if res[0] == "ok" else [dict(name=f"vf/tasks/t_source.py:{which}#xsym.runs", kind="xsym", result="refuted", backend="xlift", ms=0,
                                                       note=f"raised {type(res[1]).__name__}: {res[1]}", model=dict(which=which, label=label, k=k, path=[str(x) for x in log]))]
             _merge(agg, obs, which)
     else:
-        _merge(agg, _run(mode, which, label, k), which)
+        _merge(agg, _run(mode, which, label, k, tier), which)
     obligations = list(agg.values())
     for o in obligations:
         if o["result"] in ("refuted", "bounded-fail"):
